@@ -1,7 +1,10 @@
 ---------------------------- MODULE MC_ShellExpand ----------------------------
 (* FzfShell, expansion level: a small terminal - lines on the list, a current line, lines selected in some order,  *)
 (* a query - and a command template written token by token.  Every reachable (template, state) pair is checked      *)
-(* (MC_ShellExpand*.cfg) and exported with the expansion the specification predicts (Gen_ShellExpand*.cfg).          *)
+(* (MC_ShellExpand*.cfg) and exported with the expansion the specification predicts (the Emit invariant).            *)
+(* fzf is started with a --delimiter and a print separator (constants DelimIds / SepSet: MC_ShellExpand_files*.cfg     *)
+(* walk a menu of delimiters, both separators, file placeholders and the {q:N} family; the other configs keep the      *)
+(* defaults).                                                                                                           *)
 EXTENDS FzfShell, Json
 
 CONSTANTS MaxTokens,    \* template length in tokens
